@@ -35,7 +35,8 @@ import (
 // The preamble defines shared objects in userdict; operand expressions refer
 // to them so that aliasing between operands is part of the enumeration.
 const preamble = `/A [1 2 3] def /B 5 array def /S (abc) def /T 4 string def ` +
-	`/D 3 dict def D /x 1 put /E << /x 2 /y (s) >> def /P {1 add} def /Q {pop} def`
+	`/D 3 dict def D /x 1 put /E << /x 2 /y (s) >> def /P {1 add} def /Q {pop} def ` +
+	`/count 99 def` // an operator name shadowed in userdict: lookups must find the topmost definition
 
 var pool = []string{
 	// integers incl. boundaries
@@ -47,7 +48,7 @@ var pool = []string{
 	// reals
 	"0.5", "-1.5", "2.0",
 	// booleans, names
-	"true", "false", "/x", "/A", "/zz", "/add",
+	"true", "false", "/x", "/A", "/zz", "/add", "/count",
 	// strings and their sub-intervals
 	"S", "S 1 2 getinterval", "T", "()",
 	// arrays and their sub-intervals
@@ -59,7 +60,7 @@ var pool = []string{
 }
 
 // quickPool indexes the pool entries used for the largest arity.
-var smallPool = []string{"0", "1", "-1", "3", "9223372036854775807", "-9223372036854775808", "0.5", "true", "/x", "S", "S 1 2 getinterval", "A", "A 1 2 getinterval", "D", "E", "/P load", "{}", "mark"}
+var smallPool = []string{"0", "1", "-1", "3", "9223372036854775807", "-9223372036854775808", "0.5", "true", "/x", "/count", "S", "S 1 2 getinterval", "A", "A 1 2 getinterval", "D", "E", "/P load", "{}", "mark"}
 
 var operators = func() []string {
 	var ops []string
@@ -211,7 +212,7 @@ var startStates = []string{
 	"1 2 3",
 	"mark 1 (ab)",
 	"[1 2 3] dup 1 2 getinterval",
-	"5 dict begin /x 1 def",
+	"/x 2 def 5 dict begin /x 1 def",
 	"(abc) dup 0 2 getinterval 4 string",
 }
 
